@@ -459,9 +459,14 @@ fn check_prog(p: &Prog, seed: u64, huge: bool, st: &mut Stats) -> Option<Viol> {
     let b = p.build();
     let roots = p.roots(&b);
     let order = graph::topo(&b.ctx, &roots);
-    let bxs: Vec<Vec<(f32, f32)>> = (0..6)
+    // (tiny programs are cheap: four times as many boxes)
+    let bxs: Vec<Vec<(f32, f32)>> = (0..if p.nodes.len() <= 6 { 24 } else { 6 })
         .map(|_| {
-            let k = if huge {
+            let k = if huge && p.nodes.len() <= 6 && rng.chance(0.6) {
+                // tiny programs: the trigonometric edge boxes reach
+                // sin/cos/tan unchanged
+                BoxKind::TrigEdge
+            } else if huge {
                 match rng.below(4) {
                     0 => BoxKind::Huge,
                     1 => BoxKind::TrigEdge,
@@ -520,6 +525,19 @@ impl Prop for C03 {
             // boxes reach sin/cos/tan unchanged
             cfg.profile = prog::Profile::Libm;
             cfg.size = cfg.size.min(6);
+        }
+        let mut huge = huge;
+        if rng.chance(0.05) {
+            // "unit" trigonometric programs: sin/cos/tan of a variable or of
+            // an affine function of it, on the edge boxes
+            cfg = GenCfg::new(1 + rng.below(3));
+            cfg.allow_un = vec![prog::Un::Sin, prog::Un::Cos, prog::Un::Tan, prog::Un::Tan];
+            cfg.allow_bin = vec![prog::Bin::Add, prog::Bin::Mul, prog::Bin::Sub];
+            cfg.const_p = 0.3;
+            cfg.consts = Consts::Tame;
+            cfg.n_outputs = 1;
+            huge = true;
+            st.inc("unit_trig_programs");
         }
         let p = prog::generate(rng, &cfg);
         st.distinct(p.hash());
